@@ -399,6 +399,7 @@ func serializeIPv6HeaderTLVOptions(buf []byte, options []*ipv6HeaderTLVOption, f
 	if fixLengths {
 		pad := length % 8
 		if pad != 0 {
+			pad = 8 - pad
 			if !dryrun {
 				serializeTLVOptionPadding(buf[length-2:], pad)
 			}
